@@ -173,6 +173,11 @@ def s_binop(op: str, a, b):
         return s_floordiv(a, b)
     if op == "%":
         return s_mod(a, b)
+    if op == "**" and isinstance(b, int) and not isinstance(b, bool) and 0 <= b <= 4 and isinstance(a, z3.ExprRef):
+        r = z3.RealVal(1) if z3.is_real(a) else z3.IntVal(1)
+        for _ in range(b):
+            r = r * a
+        return r
     a, b = _coerce(a, b)
     if _both_concrete(a, b):
         a, b = _conc(a), _conc(b)
